@@ -251,12 +251,18 @@ struct Mon {
 				if (j == 0) {
 					if (e && e->step == 0 && e->method == method && e->cls != cls)
 						viol("C14", "callbacks-reach-the-addressed-state", std::string(METHOD_NAMES[method]) + " addressed to state " + sid(cls) + " ran on the class declared at position " + sid(e->cls));
+					{
+						const bool lc_exp = method == M_ENTER || method == M_EXIT || method == M_REENTER;
+						const bool lc_got = e && (e->method == M_ENTER || e->method == M_EXIT || e->method == M_REENTER);
+						if (lc_exp || lc_got) viol("C01", "lifecycle-pairing", std::string(METHOD_NAMES[method]) + "(" + sid(cls) + ") was due (state " + (T.open < 0 ? std::string("none") : S(T.open)) + " is the one whose enter() ran last without exit()), but " + got + " ran");
+					}
 					structural(cx.prop, cx.clause, std::string("expected ") + METHOD_NAMES[method] + "(" + sid(cls) + "), got " + got); return false;
 				}
 				viol("C15", "each-once", std::string(METHOD_NAMES[method]) + "(" + sid(cls) + ") reached only " + S(j) + " of the " + S(k + 1) + " classes (injections + state)");
 				return true;
 			}
 			int want = ord == ORD_PRE ? (j < k ? j + 1 : 0) : ord == ORD_POST ? (j == 0 ? 0 : k - j + 1) : -1;
+			if (k == 0) want = own_inj(cls);
 			if (want >= 0 && e->inj != want) viol("C15", "injection-order", std::string(METHOD_NAMES[method]) + "(" + sid(cls) + "): position " + S(j) + " ran " + (e->inj ? "injection " + S(e->inj) : std::string("the state's own callback")) + ", expected " + (want ? "injection " + S(want) : std::string("the state's own callback")));
 			if (seen_mask & (1u << e->inj)) viol("C15", "each-once", std::string(METHOD_NAMES[method]) + "(" + sid(cls) + ") ran " + (e->inj ? "injection " + S(e->inj) : std::string("the state's own callback")) + " twice in one delivery");
 			seen_mask |= 1u << e->inj;
@@ -654,6 +660,10 @@ struct Mon {
 		case OP_LOGGER_DETACH: T.logger = false; expect_no_hooks = true; g_stats.hit("logger_detached"); break;
 		default: break;
 		}
+		if ((k == OP_CONSTRUCT && !g_info->manual) || k == OP_ENTER || k == OPX_REPLICA_CONSTRUCT) {
+			if (x.after.valid && (k != OPX_REPLICA_CONSTRUCT || !g_info->manual) && x.after.active_id == SUT_INVALID)
+				viol("C01", "activation-activates", "after activation the machine reports no active state");
+		}
 		if (x.budget_exceeded) viol("C04", "call-returns", "the call made more than the budgeted number of callbacks (guards kept being consulted)");
 		if (!stop && hi < x.hooks.size()) {
 			const HookEv& e = x.hooks[hi];
@@ -749,15 +759,14 @@ uint64_t hash_op(const OpExec& x, bool neutral) {
 		h = fnv(h, e.active, nb); h = fnv8(h, static_cast<uint64_t>(e.machine_active));
 		h = fnv8(h, e.action.kind | e.action.a << 8 | e.action.b << 16);
 		if (e.ev_type != SUT_INVALID) { h = fnv8(h, e.ev_type); h = fnv8(h, e.ev_value); }
-		if (!neutral) {
-			h = hash_plan(h, e.plan); if (e.has_previous) h = hash_trans(h, e.previous);
-			h = fnv8(h, e.last_kind | e.last_result << 8); h = fnv8(h, e.ctx_tag);
+		h = hash_plan(h, e.plan); h = fnv8(h, e.last_kind | e.last_result << 8);      // what the program sees through the plan feature (empty when compiled out)
+		if (!neutral) { if (e.has_previous) h = hash_trans(h, e.previous);
+			h = fnv8(h, e.ctx_tag); h = fnv8(h, e.self_hits);
 		}
 	}
+	h = fnv8(h, static_cast<uint64_t>(x.result)); for (size_t i = 0; i < x.results.size(); ++i) h = fnv8(h, static_cast<uint64_t>(x.results[i]));
 	if (!neutral) {
 		for (size_t i = 0; i < x.logs.size(); ++i) h = fnv8(h, x.logs[i].kind | x.logs[i].origin << 8 | x.logs[i].arg << 16 | static_cast<uint64_t>(x.logs[i].pos) << 24);
-		h = fnv8(h, static_cast<uint64_t>(x.result));
-		for (size_t i = 0; i < x.results.size(); ++i) h = fnv8(h, static_cast<uint64_t>(x.results[i]));
 		if (!x.saved_bytes.empty()) h = fnv(h, &x.saved_bytes[0], x.saved_bytes.size());
 	}
 	if (x.after.valid) {
